@@ -27,6 +27,20 @@ EXACT = {
 def make_wcs(proj, theta, scale, skew, parity, crpix, crval):
     from astropy.wcs import WCS
 
+    if proj.endswith("-LATFIRST"):
+        # the same linear WCS with the world axes in the other order (CTYPE1 = DEC--, CTYPE2 = RA---)
+        b = make_wcs(proj[: -len("-LATFIRST")], theta, scale, skew, parity, crpix, crval)
+        w = WCS(naxis=2)
+        w.wcs.ctype = [b.wcs.ctype[1], b.wcs.ctype[0]]
+        w.wcs.crval = [b.wcs.crval[1], b.wcs.crval[0]]
+        w.wcs.crpix = list(b.wcs.crpix)
+        if b.wcs.has_cd():
+            w.wcs.cd = np.array(b.wcs.cd)[[1, 0], :]
+        else:
+            w.wcs.cdelt = [b.wcs.cdelt[1], b.wcs.cdelt[0]]
+            w.wcs.pc = np.array(b.wcs.pc)[[1, 0], :]
+        return w
+
     if isinstance(theta, str):
         w = WCS(naxis=2)
         w.wcs.ctype = ["RA---" + proj, "DEC--" + proj]
@@ -56,8 +70,8 @@ def make_wcs(proj, theta, scale, skew, parity, crpix, crval):
 
 
 def world(w, xs, ys):
-    ra, dec = w.all_pix2world(xs, ys, 0)
-    return np.asarray(ra), np.asarray(dec)
+    out = w.all_pix2world(xs, ys, 0)
+    return np.asarray(out[w.wcs.lng]), np.asarray(out[w.wcs.lat])
 
 
 def sep_deg(ra1, dec1, ra2, dec2):
@@ -72,7 +86,7 @@ def handedness(wcs, w_, h_):
     y axis points along +x cross ... i.e. the determinant of d(world)/d(pixel) is negative.  Computed
     numerically around the reference pixel, independent of the CD/PC/CDELT bookkeeping."""
     x0, y0 = wcs.wcs.crpix[0] - 1, wcs.wcs.crpix[1] - 1
-    ra, dec = wcs.all_pix2world([x0, x0 + 1e-3, x0], [y0, y0, y0 + 1e-3], 0)
+    ra, dec = world(wcs, [x0, x0 + 1e-3, x0], [y0, y0, y0 + 1e-3])
     if not (np.all(np.isfinite(ra)) and np.all(np.isfinite(dec))):
         return None
     cd = np.cos(np.radians(dec[0]))
@@ -134,7 +148,8 @@ def case(job):
         if p0 not in (1, -1) or p1 != -p0:
             bad("parity-not-negated", "parity %r before, %r after the flip" % (p0, p1))
         # the reported sign is the handedness of the pixel grid on the sky (independent numerical Jacobian)
-        hp = handedness(wcs, w_, h_)
+        # (for latitude-first axis order the statement does not say what the sign means: clause skipped)
+        hp = handedness(wcs, w_, h_) if not proj.endswith("-LATFIRST") else None
         if hp is not None and p0 != hp:
             bad("parity-sign-wrong", "get_parity_sign() = %r but the pixel grid's handedness on the sky gives %r" % (p0, hp))
         ok = np.isfinite(ra0) & np.isfinite(ra1)
@@ -179,6 +194,22 @@ def case(job):
             rag, decg = world(obj.wcs, xs.ravel(), ((h_ - 1 - ys) if flipped else ys).ravel())
             if ok.any() and sep_deg(ra0[ok], dec0[ok], rag[ok], decg[ok]).max() > 1e-9:
                 bad("ensure_negative_parity-after-flip", "the ensure/flip/ensure history moved pixels on the sky")
+            # ONE WCS instance shared by several images of different heights (a frame and versions with rows
+            # trimmed off or added at the end), each of them flipped: every one keeps its pixels on the sky
+            shared = wcs.deepcopy()
+            for hk in (h_, h_ + 3, max(1, h_ - 1)):
+                if kind in ("image", "image-pil"):
+                    o2 = Image.from_array(np.zeros((hk, w_), dtype=np.float32), wcs=shared, default_format="fits")
+                else:
+                    o2 = ImageDescription(mode=ImageMode.F32, shape=(hk, w_), wcs=shared)
+                y2, x2 = np.mgrid[0:hk, 0:w_]
+                rb, db = world(wcs, x2.ravel(), y2.ravel())
+                o2.flip_parity()
+                ra_, da_ = world(o2.wcs, x2.ravel(), (hk - 1 - y2).ravel())
+                okk = np.isfinite(rb) & np.isfinite(ra_)
+                if okk.any() and sep_deg(rb[okk], db[okk], ra_[okk], da_[okk]).max() > 1e-9:
+                    bad("shared-wcs-different-heights", "of several objects built on one WCS instance, the one of height %d (others %d) moved by %.3g deg when flipped" % (hk, h_, sep_deg(rb[okk], db[okk], ra_[okk], da_[okk]).max()))
+                    break
         except Exception as e:
             bad("raises:%s" % type(e).__name__, repr(e))
     part.sample(cfg)
@@ -199,7 +230,7 @@ def run(tier, seed):
         crvals = crvals + [(180.0, 89.9), (0.05, -45.0)]
     rep.rule = (
         "projection %r x rotation %r x 3 scales x skew %r x both parities x 4 reference-pixel placements x 3 reference values x sizes %r x "
-        "{Image, ImageDescription}; every pixel of every image compared; non-trivial = rotated, skewed or off-centre reference pixel"
+        "{Image, ImageDescription}, plus a thinned copy of the lattice with latitude-first world axes; one WCS instance shared by objects of three heights, each flipped; every pixel of every image compared; non-trivial = rotated, skewed or off-centre reference pixel"
         % (projs, thetas, skews, sizes)
     )
     rep.assumptions = ["linear WCS only (no SIP/TPV distortion terms)", "sky positions compared to 1e-9 degree as angular separation"]
@@ -218,6 +249,12 @@ def run(tier, seed):
     # exactly-zero matrix entries (quarter turns written as 0/+-1, a shear with a zero diagonal), as CD and as CDELT+PC
     for proj, th, sc, form, par_, cv, sz, kind in itertools.product(projs[:1], sorted(EXACT), scales, (0.0, 1.0), (-1, 1), crvals[:2], [(2, 3), (5, 4)], ("image", "description")):
         cases.append((proj, th, sc, form, par_, "centre", cv, sz, kind))
+    # latitude-first axis order (CTYPE1 = DEC--, CTYPE2 = RA---): the same lattice, thinned
+    for proj, th, sc, sk, par_, ck, cv, sz in itertools.product(projs[:1], thetas[:: (1 if tier == "thorough" else 2)], scales[:2], skews, (-1, 1), crpix_kinds[:3], crvals, sizes[1:3]):
+        for kind in ("image", "description"):
+            cases.append((proj + "-LATFIRST", th, sc, sk, par_, ck, cv, sz, kind))
+    for th, form, par_ in itertools.product(sorted(EXACT), (0.0, 1.0), (-1, 1)):
+        cases.append(("TAN-LATFIRST", th, scales[1], form, par_, "centre", crvals[1], (5, 4), "image"))
     n = par.ncores() * 2
     par.pmap(case, [cases[i::n] for i in range(n)], rep)
     return rep.finish()
